@@ -948,7 +948,7 @@ func RunForgedQCToNextLeader(variant int, scheme string, rng *vbase.Rng, r *vbas
 // accepts the forged certificates it commits Z_2 while 1..4 commit R_2. Any hole in certificate validation that lets a
 // coalition of f replicas pass a certificate without a quorum shows up here as a ledger divergence.
 func RunPrivateBranch(variant int, ruleset string, rng *vbase.Rng, r *vbase.Result, enable func(*Monitors)) *Cluster {
-	kinds := []string{"interleaved-two-signers", "repeated-signer", "rogue-key", "recut-cached-vote", "sub-quorum"}
+	kinds := []string{"interleaved-two-signers", "repeated-signer", "rogue-key", "recut-cached-vote", "sub-quorum", "unsigned-view-zero"}
 	kind := kinds[variant%len(kinds)]
 	scheme := "eddsa"
 	if variant/len(kinds)%2 == 1 {
@@ -1084,6 +1084,34 @@ func RunPrivateBranch(variant int, ruleset string, rng *vbase.Rng, r *vbase.Resu
 	for v := hotstuff.View(2); v <= 7 && c.Panic == nil && len(c.Mon.Viol) == 0; v++ {
 		R := hotstuff.NewBlock(parentR.Hash(), qcR, c.byzBatch(byz), v, byz.ID)
 		Z := hotstuff.NewBlock(parentZ.Hash(), qcZ, c.byzBatch(byz), v, byz.ID)
+		if kind == "unsigned-view-zero" {
+			// the victim sees nothing of views 2..4; in view 5 it is brought up to date with the genuine QC of the public block
+			// of view 4 and then shown ONE block whose ancestors Y2<-Y3<-Y4 (on top of X) nobody ever voted for: each is
+			// "certified" by a signature-free certificate labelled view 0, like the genesis certificate, and served on request
+			propose(R, public...)
+			var ok bool
+			if !c.roundsUntil(10, func() bool { qcR, ok = genuineQC(R); return ok }) {
+				c.R.Obs("private_branch_setup_failed", 1)
+				return done()
+			}
+			parentR = R
+			if v < 5 {
+				continue
+			}
+			c.enqueue(byz, victim, hotstuff.NewViewMsg{ID: byz.ID, SyncInfo: hotstuff.NewSyncInfoWith(qcR)})
+			c.roundsUntil(4, func() bool { return victim.Node.VS.View() >= 6 })
+			py, pqc := X, qcX
+			for yv := hotstuff.View(3); yv <= 5; yv++ {
+				Y := hotstuff.NewBlock(py.Hash(), pqc, c.byzBatch(byz), yv, byz.ID)
+				c.registerByzBlock(byz, Y)
+				py, pqc = Y, hotstuff.NewQuorumCert(nil, 0, Y.Hash())
+			}
+			Z6 := hotstuff.NewBlock(py.Hash(), pqc, c.byzBatch(byz), 6, byz.ID)
+			propose(Z6, victim)
+			c.R.Obs("private_branch_forged_qcs_presented", 1)
+			c.roundsUntil(4, func() bool { return false })
+			break
+		}
 		propose(R, public...)
 		propose(Z, victim)
 		var ok bool
@@ -1092,12 +1120,17 @@ func RunPrivateBranch(variant int, ruleset string, rng *vbase.Rng, r *vbase.Resu
 			return done()
 		}
 		parentR = R
-		fs := forge(Z)
-		if fs == nil {
-			c.R.Obs("private_branch_forgery_not_applicable", 1)
-			return done()
+		if kind == "unsigned-view-zero" {
+			// no signature at all, labelled with view 0 like the genesis certificate
+			qcZ = hotstuff.NewQuorumCert(nil, 0, Z.Hash())
+		} else {
+			fs := forge(Z)
+			if fs == nil {
+				c.R.Obs("private_branch_forgery_not_applicable", 1)
+				return done()
+			}
+			qcZ = hotstuff.NewQuorumCert(fs, Z.View(), Z.Hash())
 		}
-		qcZ = hotstuff.NewQuorumCert(fs, Z.View(), Z.Hash())
 		parentZ = Z
 		c.R.Obs("private_branch_forged_qcs_presented", 1)
 	}
